@@ -34,10 +34,11 @@ def options_for(rng):
         kwlists=rng.choice([0.2, 0.5]),
         empty_list=rng.choice([0.0, 0.0, 0.0, 0.15]),
         layout=rng.choice([0.0, 0.3]),
+        tdm=rng.random() < 0.12,
     )
 
 
-REQUIRED_TAGS = ["redeclared-array", "redeclared-scalar", "type-options", "target-options", "kwarg-list", "loop", "op:measure", "no-arglist", "empty-arglist"]
+REQUIRED_TAGS = ["redeclared-array", "redeclared-scalar", "tdm-plike-array-name", "tdm-parray", "type-options", "target-options", "kwarg-list", "loop", "op:measure", "no-arglist", "empty-arglist"]
 
 
 def check_text(ctx, text, tags=()):
@@ -86,7 +87,7 @@ def run(ctx):
         except RuntimeError:
             ctx.out_of_domain("generator gave up")
             continue
-        check_text(ctx, text, tags=sorted(t for t in info["tags"] if t.startswith("redeclared")))
+        check_text(ctx, text, tags=sorted(t for t in info["tags"] if t.startswith(("redeclared", "tdm-plike"))))
 
 
 def replay(w):
